@@ -21,7 +21,7 @@ def ascBy {α} (le : α → α → Bool) : List α → Bool
 /-- `slice_period_rows`: the rows partition the cells by (metadata, period) — the keys are pairwise different
 and ascend by (metadata, period), no row is empty, every cell of a row carries the row's key, every row
 ascends by evaluation date, and all rows together are exactly the cells of the triangle -/
-def rowsSpec (t : List Cell) (out : List (RowKey × List Cell)) : Bool :=
+def rowsSpec (t : List Cell) (out : List (SliceRowKey × List Cell)) : Bool :=
   ascBy (fun a b => rowKeyCmp a b != .gt) (out.map (·.1)) &&
   ascBy (fun a b => a != b) (out.map (·.1)) &&
   out.all (fun p => !p.2.isEmpty && p.2.all (fun c => c.rowKey == p.1) &&
